@@ -56,7 +56,7 @@ LEVEL_NOTE = ("Trusted base: the simulator runtime (simrt/), the instrumenter's 
 NOT_APPLICABLE = {}
 
 FO_RULE = ("Scenarios are drawn from the seeded PRNG (clients, keys, Gets with builder scripts, initial entry state per key, "
-           "FailoverConfig, backend kind, API flavour, value representation on the untyped API (struct, slice, map, struct-with-slice, pointer), fault plan) and executed under random / PCT / mostly-sequential "
+           "FailoverConfig, backend kind (in 20 % a decorator wrapping read errors with %w), API flavour (Failover, FailoverOf[T], FailoverOf[any] over untyped backends), builder errors that wrap context / cache sentinels, value representation on the untyped API (struct, slice, map, struct-with-slice, pointer), fault plan) and executed under random / PCT / mostly-sequential "
            "schedules at call-out and lock granularity. ")
 
 prop("C02", quick={"runs": 8000}, thorough={"runs": 100000000, "budget_s": 600}, level="fault_enumeration",
@@ -71,7 +71,8 @@ prop("C02", quick={"runs": 8000}, thorough={"runs": 100000000, "budget_s": 600},
 prop("C03", quick={"runs": 1000000}, thorough={"runs": 100000000, "budget_s": 900}, exhaustive=True,
      rule="The decision table is enumerated completely: entry state {absent, fresh, stale within MaxStaleness, stale beyond} x failure "
      "cached {no, yes} x SyncUpdate x FailHard x MaxStaleness {0, set} x FailedUpdateTTL {default, -1} x builder {ok, error} x "
-     "flavour {Failover/ShardedMap, Failover/SyncMap, FailoverOf/ShardedMapOf} x 3 clock offsets x SyncRead, minus impossible cells; "
+     "flavour {Failover/ShardedMap, Failover/SyncMap, FailoverOf/ShardedMapOf, Failover/ShardedMapOf[any], FailoverOf[any]/SyncMap} x 3 clock offsets x SyncRead, "
+     "plus (at the middle offset) a nil cached value on the untyped flavours and a decorating backend that wraps every read error with %w, minus impossible cells (7680 cells); "
      "each cell is reached by driving the simulated clock, the builder sleeps 1 s of simulated time so that 'Get returned before/after "
      "the build finished' is observable. Every cell is non-trivial; distinct = distinct (cell, schedule). Thorough repeats all cells "
      "40 times under different schedules, jitter extremes, logger/stats on.",
@@ -124,7 +125,7 @@ prop("C11", quick={"runs": 30000}, thorough={"runs": 100000000, "budget_s": 600}
      "compared with the reference map. Non-trivial: at least one cleanup cycle ran; distinct = distinct (scenario, schedule).",
      rules=["C11.R1 wrongly-deleted (never-expiring / fresh / recently expired entry removed)", "C11.R2 not-deleted (long-expired entry kept although the scan is documented to run)"],
      probes=["janitor_met_never_expiring_entry", "janitor_met_fresh_entry", "janitor_met_recently_expired_entry", "janitor_deleted_long_expired_entry",
-             "unlimited_cache_with_explicit_ttl_cycle", "entry_without_expiry_restored", "entry_with_expiry_restored", "fresh_write_during_cleanup_cycle"])
+             "unlimited_cache_with_explicit_ttl_cycle", "entry_without_expiry_restored", "entry_with_expiry_restored", "default_delete_expired_after", "fresh_write_during_cleanup_cycle"])
 prop("C12", quick={"runs": 6000}, thorough={"runs": 100000000, "budget_s": 600},
      rule=BE_RULE + "Root-driven fill of 1-400 entries around CountSoftLimit, access histories (reads at distinct simulated instants, rewrites), "
      "EvictionNeeded scripts, HeapInUseSoftLimit / SysMemSoftLimit at the two allocator-independent settings (1 byte: always exceeded, MaxUint64: never), "
@@ -156,7 +157,7 @@ prop("C18", quick={"runs": 12000}, thorough={"runs": 100000000, "budget_s": 600}
      probes=["refresh_counted", "failed_build_counted", "expireAll_counted", "deleteAll_counted", "concurrent_metrics_checked", "deleteAll_concurrent_with_writes", "expireAll_concurrent_with_writes", "colliding_write_replaced_entry"])
 TR_RULE = "Root-driven scenarios drawn from the seeded PRNG; the simulator owns the byte stream / round-tripper / deleters and the iteration order of maps and sync.Map (so every Walk order the source can produce is sampled). "
 prop("C13", quick={"runs": 6000}, thorough={"runs": 100000000, "budget_s": 600},
-     rule=TR_RULE + "Source caches with 0-300 entries (keys of differing lengths incl. empty and binary, values nil / zero / populated structs / maps / pointers, "
+     rule=TR_RULE + "Source caches with 0-300 entries (keys of differing lengths incl. empty, binary and 4095-70000 bytes, values nil / zero / populated structs / maps / pointers, "
      "expiry unset / set / already expired) are dumped and restored along chains of 1-4 hops over ShardedMap<->SyncMap and ShardedMapOf[GV]; a third of the "
      "runs truncate or fail the stream at a byte offset or deliver it in 1-byte reads. Non-trivial: at least one entry; distinct = distinct scenarios x map order.",
      rules=["C13.R1 entry sets equal after Dump->Restore", "C13.R2 Read agrees", "C13.R3 counts", "C13.R4 relay through further hops", "C13.R5 stream faults: subset of intact entries"],
@@ -177,7 +178,7 @@ prop("C15", quick={"runs": 9000}, thorough={"runs": 100000000, "budget_s": 600},
      rules=["C15.R1 labelled keys absent after nil", "C15.R2 unlabelled keys untouched", "C15.R3 count = entries really removed", "C15.R4 failure returned, no panic", "C15.R5 retry removes every labelled key"],
      probes=["invalidate_ok", "invalidate_with_deleter_failure", "retry_after_failure", "concurrent_invalidate", "sweep_after_concurrent_failure"])
 prop("C17", quick={"runs": 12000}, thorough={"runs": 100000000, "budget_s": 600},
-     rule="1-8 client tasks call Invalidate 1-4 times each with sleeps around SkipInterval (-1ns, exactly, +1ns); 0-5 callbacks yield / sleep simulated time while the "
+     rule="1-8 client tasks call Invalidate 1-4 times each with sleeps around SkipInterval (-1ns, exactly, +1ns) and a context that is live, already cancelled, past its deadline, or cancelled by the first callback; 0-5 callbacks yield / sleep simulated time while the "
      "Invalidator's mutex is held (cooperative lock table). Non-trivial: at least two calls; distinct = distinct (scenario, schedule signature).",
      rules=["C17.R1 accepted calls never overlap", "C17.R2 consecutive accepted calls start running callbacks >= SkipInterval apart", "C17.R3 every callback exactly once in order, synchronously",
             "C17.R4 rejected: no callback, ErrAlreadyInvalidated", "C17.R5 no callbacks: ErrNothingToInvalidate"],
@@ -193,5 +194,5 @@ prop("C16", quick={"runs": 12000}, thorough={"runs": 100000000, "budget_s": 900}
      probes=[],
      level_note="Trusted base as for the other checks, plus the detector's model of synchronisation: mutex/RWMutex (release->acquire), sync.Map operations "
      "(acquire+release on the map: coarser than reality, can only hide races), sync/atomic (acquire+release on the address), close->receive on channels, "
-     "goroutine start. Not tracked: slice elements, captured locals, accesses inside the standard library. A reported pair is a race in every real "
+     "goroutine start. Tracked: fields behind pointers to the library's structs and of address-taken local struct variables, slice elements, maps. Not tracked: other captured locals, accesses inside the standard library. A reported pair is a race in every real "
      "execution in which both accesses happen.")
